@@ -34,12 +34,12 @@ SHARDS = {"quick": 4, "thorough": 16}
 
 # set to False once Crystal.reduce is repaired (VERIF_C19_NO_EXCLUDE=1 switches the exclusion off for one run,
 # e.g. to validate a candidate repair in a scratch copy through ONSAGER_REPO)
-EXCLUDE_R12 = True and not os.environ.get("VERIF_C19_NO_EXCLUDE")
+EXCLUDE_R12 = False  # repaired in /repo (75d79ac)
 
 # Regression of the R14 repair (b3cdd79): Crystal.minlattice stops on descriptions whose pairwise projections are all
 # exactly 1/2 although a_3 +- a_1 +- a_2 is shorter; Crystal.gengroup then misses the operations whose matrices need
 # entries outside {-1,0,1}.  Predicate (input only): the point lattice of P admits such a description.  Set to False once repaired.
-EXCLUDE_R14B = True and not os.environ.get("VERIF_C19_NO_EXCLUDE")
+EXCLUDE_R14B = False  # repaired in /repo (ef2d9d4)
 
 SHIFTS = [0., 0., 0.1, 0.37, -0.23, 0.5, 0.123456789, 0.25]
 NKEYS = 24
